@@ -19,6 +19,8 @@ CONSTANTS Grammar,       \* [parent item kind -> set of child item kinds] ("root
 (* ---------------------------------------------------------------- items -> events ---- *)
 Ev(e, k, t, a) == [e |-> e, k |-> k, t |-> t, a |-> a]
 Txt(n) == "x" \o ToString(n)
+(* image destinations are carried over as written: also ones a path normaliser would rewrite *)
+ImgSrc(n) == (CASE n % 3 = 0 -> "./im//i" [] n % 3 = 1 -> "i" [] OTHER -> "d/../i") \o ToString(n) \o ".png"
 ContainerItems == {"blockquote", "bullet_list", "ordered_list", "list_item", "ipara", "iheading1", "iheading2",
                    "em", "strong", "link", "s", "dl", "dt", "dd", "img"}
 OpenEvents(k, n) ==
@@ -26,7 +28,7 @@ OpenEvents(k, n) ==
     [] k = "iheading1" -> <<Ev("open", "heading", "", "1"), Ev("open", "inline", "", "")>>
     [] k = "iheading2" -> <<Ev("open", "heading", "", "2"), Ev("open", "inline", "", "")>>
     [] k = "link" -> <<Ev("open", "link", "", "http://e.x/" \o ToString(n))>>
-    [] k = "img" -> <<Ev("open", "image", "", "i" \o ToString(n) \o ".png")>>            \* an image whose label is generated
+    [] k = "img" -> <<Ev("open", "image", "", ImgSrc(n))>>            \* an image whose label is generated
     [] k = "bullet_list" -> <<Ev("open", "bullet_list", "", "-")>>
     [] k = "ordered_list" -> <<Ev("open", "ordered_list", "", "arabic|.|")>>
     [] k \in {"dt", "dd"} -> <<Ev("open", k, "", "")>> \o (IF k = "dt" THEN <<Ev("open", "inline", "", "")>> ELSE <<>>)
@@ -65,7 +67,7 @@ LeafEvents(k, n) ==
     [] k = "code_inline" -> <<Ev("leaf", "code_inline", Txt(n), "")>>
     [] k = "softbreak" -> <<Ev("leaf", "softbreak", "", "")>>
     [] k = "hardbreak" -> <<Ev("leaf", "hardbreak", "", "")>>
-    [] k = "image" -> <<Ev("open", "image", "", "i" \o ToString(n) \o ".png"), Ev("leaf", "text", Txt(n), ""), Ev("close", "image", "", "")>>
+    [] k = "image" -> <<Ev("open", "image", "", ImgSrc(n)), Ev("leaf", "text", Txt(n), ""), Ev("close", "image", "", "")>>
     [] k = "html_inline" -> <<Ev("leaf", "html_inline", "<b>", "")>>
     [] k = "math_inline" -> <<Ev("leaf", "math_inline", Txt(n), "")>>
     [] OTHER -> <<Ev("leaf", k, Txt(n), "")>>
